@@ -59,3 +59,12 @@ Definition write_section (id : Z) (payload : list Z) : list Z :=
 (** Module.WriteTo: the preamble (Spec.Leb128.wasm_preamble), then the sections in order, each framed as above. *)
 Definition write_sections (secs : list (Z * list Z)) : list Z :=
   flat_map (fun s => write_section (fst s) (snd s)) secs.
+
+(** CodeSection.WriteTo payload: number of bodies, then each body behind its size.
+    ExportSection.WriteTo payload: number of exports, then (name, kind byte, index) each. *)
+Definition write_code_payload (bodies : list (list Z)) : list Z :=
+  pack_integer (Z.of_nat (length bodies)) ++ flat_map write_bytes_vec bodies.
+Definition write_export (e : list Z * Z * Z) : list Z :=
+  write_string (fst (fst e)) ++ snd (fst e) :: pack_integer (snd e).
+Definition write_export_payload (es : list (list Z * Z * Z)) : list Z :=
+  pack_integer (Z.of_nat (length es)) ++ flat_map write_export es.
